@@ -3478,11 +3478,6 @@ theorem Inv.opExtend {σ : State} {t : Loc} (q : Path) (inv : Inv σ []) (hl : V
         · exact Or.inr (Or.inr (Or.inr (Or.inr rfl)))
       · right; exact ⟨σ', h3, inv', hs⟩
 
-/-- histories in which `extend` is applied to root variables only (the case covered by the proof) -/
-def RootExtend : Op → Prop
-  | .extend p _ => p.steps = []
-  | _ => True
-
 theorem Lit.toV_scalar (l : Lit) : handleOf l.toV = none := by
   cases l with
   | int i => rfl
@@ -4193,6 +4188,88 @@ theorem Dy.normal_unique {a b : Dy} (ha : a.Normal) (hb : b.Normal) (hv : a.ValE
     have h2 : m2 * 2 ^ (k + 1) * 2 ^ e2 = m1 * 2 ^ e2 := by rw [hv]; ac_rfl
     have h3 := Int.eq_of_mul_eq_mul_right (Int.ne_of_gt (pow2_pos e2)) h2
     exact odd_mul_pow2 ha' m2 h3.symm
+
+
+/-- **the target survives its own assignment**: after an executed `target = src` the Var at the target location
+(root variable or element/property at any depth) is readable and holds `src` -/
+theorem Inv.assignV_target {σ σ' : State} {T : List V} {t : Loc} {src : V} (inv : Inv σ T)
+    (hl : ValidLoc σ t) (hs : LiveV σ.heap src)
+    (hacyc : ∀ B c, parentOf t = some B → handleOf src = some c → ¬ Reach σ.heap c B)
+    (ha : Var.assignV σ t src = .ok σ') : readLoc σ' t = .ok src := by
+  obtain ⟨old, hr, hheld⟩ := readLoc_valid hl T
+  clear hheld
+  unfold Var.assignV at ha
+  rw [hr] at ha
+  dsimp only at ha
+  split at ha
+  · rename_i s0 s
+    obtain ⟨σ1, old', _, hw, _, _, hrd⟩ := ((Inv.scalar (v := V.str s) rfl).mpr inv).writeLoc hl (fun _ _ _ h => nomatch h)
+    rw [hw] at ha; cases ha; exact hrd
+  · obtain ⟨h1, hc, inv1, same⟩ := inv.copyLive hs
+    simp only [hc] at ha
+    have hl1 : ValidLoc { σ with heap := h1 } t := (SameDom.of_same same).validLoc hl
+    obtain ⟨σ2, old', hr', hw, inv2, dom, hrd2⟩ := inv1.writeLoc hl1
+      (fun id c hp hc' r => hacyc id c hp hc' ((Reach.of_same same).mp r))
+    rw [readLoc_same same t hr] at hr'; cases hr'
+    simp only [hw] at ha
+    by_cases hpod : isPod old = true
+    · simp only [hpod, if_true] at ha; cases ha; exact hrd2
+    · simp only [hpod] at ha
+      cases hd : Var.drop σ2.heap [old] with
+      | error e => simp [hd] at ha
+      | ok h3 =>
+        simp only [hd] at ha
+        cases ha
+        cases t with
+        | slot k => simp only [readLoc] at hrd2 ⊢; exact hrd2
+        | item B p =>
+          obtain ⟨bB, hbB, hp⟩ := hl
+          obtain ⟨rank, hrk⟩ := inv.ranked
+          have hedgeOld : ∀ c, handleOf old = some c → Edge σ.heap B c := by
+            intro c hc'
+            refine ⟨bB, hbB, old, ?_, hc'⟩
+            simp only [readLoc, hbB] at hr
+            cases hi' : bB.items[p]? with
+            | none => simp [hi'] at hr
+            | some kv =>
+              simp only [hi', Except.ok.injEq] at hr
+              rw [← hr]; exact List.mem_map_of_mem (List.mem_of_getElem? hi')
+          obtain ⟨b1B, hb1B, e1B, _, _⟩ := same.get hbB
+          have hedges2 : ∀ x y, Edge σ2.heap x y → Edge h1 x y ∨ (x = B ∧ handleOf src = some y) := by
+            intro x y e
+            simp only [Var.writeLoc, hb1B] at hw
+            split at hw
+            · cases hw
+              rcases Edge.setB hb1B e with ⟨_, e0⟩ | ⟨rfl, w, hw', hwy⟩
+              · exact Or.inl e0
+              · simp only [bvals, map_snd_setValAt] at hw'
+                rcases List.mem_or_eq_of_mem_set hw' with h2 | rfl
+                · exact Or.inl ⟨b1B, hb1B, w, h2, hwy⟩
+                · exact Or.inr ⟨rfl, hwy⟩
+            · cases hw
+          have hno : ∀ v ∈ [old], ∀ c, handleOf v = some c → ¬ Reach σ2.heap c B := by
+            intro v hv c hc' r
+            simp only [List.mem_singleton] at hv; subst hv
+            have hlt := hrk B c (hedgeOld c hc')
+            have key : Reach σ.heap c B := by
+              cases hsrc : handleOf src with
+              | none =>
+                apply (Reach.of_same same).mp
+                exact Reach.mono (fun x y e => by
+                  rcases hedges2 x y e with e0 | ⟨_, h0⟩
+                  · exact e0
+                  · rw [hsrc] at h0; cases h0) r
+              | some cs =>
+                have := reach_addEdge_split (h := h1) (B := B) (c := cs) (fun x y e => by
+                  rcases hedges2 x y e with e0 | ⟨h0, h0'⟩
+                  · exact Or.inl e0
+                  · rw [hsrc] at h0'; exact Or.inr ⟨h0, (Option.some.inj h0').symm⟩) r
+                rcases this with h0 | h0 <;> exact (Reach.of_same same).mp h0
+            have := Reach.rank_le hrk key; omega
+          have hfr := release_frame _ σ2.heap h3 [old] B hd hno
+          simp only [readLoc] at hrd2 ⊢
+          have : getB h3 B = getB σ2.heap B := by unfold getB; rw [hfr]
+          rw [this]; exact hrd2
 
 
 /-! ## no leak -/
